@@ -337,7 +337,23 @@ func c08Run(t *testing.T, st *vstat.Stats, p c08Plan) (v *viol) {
 					data, _ := json.Marshal(map[string]any{"BatchID": fmt.Sprintf("bogus-%d", c), "ParticipantId": c % p.N, "CreatedAt": time.Now(),
 						"SigningTasks": []map[string]any{{"MessageID": "r", "RangeStart": 20000, "RangeEnd": 20002}}})
 					w.PostSigned(c%p.N, roundA, "event_signing_start", data, "")
-				case 3: // a message of a round nobody knows
+				case 3:
+					if c%2 == 0 {
+						// an opening proposal by strangers for a round identifier that differs from the first round's only by
+						// white space around it: another identifier, hence another round - it must not touch ours
+						ws := []string{" ", "\n", "\t"}[c/2%3]
+						id := roundA + ws
+						if c/6%2 == 0 {
+							id = ws + roundA
+						}
+						kp := world.KeyPairFromSeed([]byte("a stranger"))
+						dk, _ := w.Machines[0].M.GetPubKey().MarshalBinary()
+						body, _ := json.Marshal(requests.SignatureProposalParticipantsListRequest{SigningThreshold: 2, CreatedAt: time.Now(), Participants: []*requests.SignatureProposalParticipantsEntry{
+							{Username: "mallory", PubKey: kp.Pub, DkgPubKey: dk}, {Username: "mate", PubKey: kp.Pub, DkgPubKey: dk}}})
+						w.Board.Inject(storage.Message{DkgRoundID: id, Event: "event_sig_proposal_init", Data: body, Signature: ed25519.Sign(kp.Priv, body), SenderAddr: "mallory"})
+						break
+					}
+					// a message of a round nobody knows
 					w.PostSigned(c%p.N, fmt.Sprintf("%064x", c), "event_dkg_commit_confirm_received", []byte(`{"ParticipantId":0,"Commit":"AAAA","CreatedAt":"2000-01-01T00:00:00Z"}`), "")
 				}
 			}
